@@ -176,6 +176,22 @@ def strict_same(a, b):
     return False
 
 
+def enum_takes_frozen(a, b):
+  """`a` is an Enum (or a Union with an Enum candidate) that declares itself
+  compatible with the frozen spec `b` because b's frozen value `==` a member."""
+  if not b.frozen:
+    return False
+  enums = [a] if isinstance(a, T.Enum) else (
+      [c for c in a.candidates if isinstance(c, T.Enum)] if isinstance(a, T.Union) else [])
+  for e in enums:
+    try:
+      if b.default in e.values and e.is_compatible(b):
+        return True
+    except Exception:  # pylint: disable=broad-except
+      pass
+  return False
+
+
 def frozen_shortcut(spec, v, depth=0):
   """True when `spec` can accept `v` only because a frozen (sub)spec takes any
   value that compares equal to its default (e.g. 1 for a frozen True)."""
@@ -309,6 +325,11 @@ def compat_law(ctx, rng, da, db, a, b, state):
       mech = 'frozen'
     elif frozen_shortcut(lb, lv):
       mech = 'frozen-shortcut'
+    elif enum_takes_frozen(la, lb):
+      # Enum.is_compatible accepts ANY frozen spec whose frozen value `==` one
+      # of its members (True == 1), whatever the class of that spec: one
+      # mechanism, not one per partner class.
+      mech = 'Enum<-frozen:type' if isinstance(la, T.Enum) else 'Union[Enum]<-frozen:type'
     else:
       mech = pair_mechanism(la, lb, reason, '<-')
     if mech in fired:
@@ -348,8 +369,13 @@ def project(v, cspec, base):
       fc, fb = cspec.schema.get_field(k), base.schema.get_field(k)
       if fc is None:
         return SKIP
-      if fb is None or fb.key != fc.key:
-        continue
+      if fb is None:
+        continue          # a field only the extended spec declares
+      if fb.key != fc.key:
+        # The base governs this key through another key spec (e.g. a constant
+        # key of the child that a dynamic key of the base matches): whether the
+        # two "share" the field is left open, the value is not judged.
+        return SKIP
       y = project(x, fc.value, fb.value)
       if y is SKIP:
         return SKIP
@@ -468,7 +494,13 @@ def localize_incompatible(ext, base, depth=0):
   pairs = []
   if depth > 8:
     return ext, base
-  if isinstance(ext, T.List) and isinstance(base, T.List):
+  if isinstance(base, T.Union):
+    # Candidate by candidate, paired as extend() pairs them.
+    for ec in (ext.candidates if isinstance(ext, T.Union) else [ext]):
+      bc = union_counterpart(base, ec)
+      if bc is not None and not isinstance(bc, T.Union):
+        pairs.append((ec, bc))
+  elif isinstance(ext, T.List) and isinstance(base, T.List):
     pairs = [(ext.element.value, base.element.value)]
   elif isinstance(ext, T.Tuple) and isinstance(base, T.Tuple):
     for i in range(len(ext.elements) if ext.fixed_length else 1):
